@@ -352,6 +352,19 @@ async fn pause(ctx: &Ctx) {
     }
 }
 
+/// Harness-level schedule point: called with the 1-based node when an
+/// executor starts and after each of its sequential dependency reads
+/// (conc_sched blocks here until the schedule lets the task go on).
+pub type ExecPoint = Arc<dyn Fn(usize) + Send + Sync>;
+pub static EXEC_POINT: parking_lot::RwLock<Option<ExecPoint>> = parking_lot::RwLock::new(None);
+
+fn exec_point(n1: usize) {
+    let h = EXEC_POINT.read().clone();
+    if let Some(h) = h {
+        h(n1);
+    }
+}
+
 pub async fn run_node<C: Config>(ctx: &Ctx, engine: &TrackedEngine<C>, n: usize) -> i64 {
     let x = ctx.rec.exec_seq.fetch_add(1, Ordering::SeqCst);
     ctx.rec.push(Event::Enter { n: n + 1, x });
@@ -360,6 +373,7 @@ pub async fn run_node<C: Config>(ctx: &Ctx, engine: &TrackedEngine<C>, n: usize)
     if ctx.panic_node.load(Ordering::SeqCst) == n as i64 {
         panic!("vh: injected executor panic at node {}", n + 1);
     }
+    exec_point(n + 1);
 
     let node = &ctx.prog.nodes[n];
     let out = if node.kind == Kind::Ex {
@@ -394,6 +408,7 @@ pub async fn run_node<C: Config>(ctx: &Ctx, engine: &TrackedEngine<C>, n: usize)
                         guard.reads.lock().push((*d, v));
                         acc = ctx.prog.step(it, i, acc, v);
                         pause(ctx).await;
+                        exec_point(n + 1);
                     }
                 }
             }
